@@ -259,7 +259,9 @@ def conclude(mod, tier, seed, results, t0, replay=None, tmp=None, extra_cov=None
         floors = floors(tier)
     fb = getattr(mod, "FLOOR_BASE", None)
     if fb and fb.get(tier):
-        scale = max(1.0, 0.8 * mod.TIERS[tier]["cases"] / float(fb[tier]))
+        # 0.5: safety margin against seed-to-seed fluctuation of the counts (a floor guards against workloads that observed
+        # next to nothing, not against a count that is 20% lower on another seed)
+        scale = max(1.0, 0.8 * mod.TIERS[tier]["cases"] / float(fb[tier])) * 0.5
         fixedk = getattr(mod, "FLOOR_FIXED", set())
         floors = {k: (v if k in fixedk else int(v * scale)) for k, v in floors.items()}
     unmet = {}
